@@ -106,3 +106,49 @@ def run_adapter_harness( QType, n, eo, do, msgs, MsgType ):
   th.sim_reset()
   for _ in range( len( eo ) + 2 * n + 4 ): th.sim_tick()
   return th.accepted, th.delivered
+
+
+class RecvAdapterHarness( Component ):
+  """an RTL producer (en/rdy send interface) feeds a cycle-level queue through the library's RecvRTL2SendCL adapter; a
+  cycle-level consumer dequeues and KEEPS every object it was handed.  After the offers have run out it takes whenever it
+  can (drain), so at the end every accepted message must have been delivered, in order, still reading what was accepted.
+  (GetRTL2GiveCL, the dequeue-side counterpart, cannot be constructed on this tree: it reads s.get.msg, GetIfcRTL has ret.)"""
+  def construct( s, QType, n, eo, do, msgs, MsgType ):
+    from pymtl3.stdlib.ifcs.send_recv_ifcs import RecvRTL2SendCL
+    s.ad = RecvRTL2SendCL( MsgType )
+    s.q  = QType( n )
+    s.ad.send //= s.q.enq
+    s.k = len( eo ); s.t = 0
+    s.eo, s.do, s.msgs = eo, do, msgs
+    s.accepted = []; s.kept = []
+
+    def log_acc(): s.accepted.append( s.t )
+
+    @update_once
+    def up_prod():
+      offer = ( not s.reset ) and s.t < s.k and bool( s.eo[ s.t ] ) and bool( s.ad.recv.rdy )
+      s.ad.recv.en  @= 1 if offer else 0
+      s.ad.recv.msg @= s.msgs[ s.t ] if s.t < s.k else 0
+      if offer: log_acc()
+
+    @update_once
+    def up_cons():
+      if not s.reset and ( s.t >= s.k or s.do[ s.t ] ) and s.q.deq.rdy():
+        s.kept.append( s.q.deq() )
+
+    @update_once
+    def up_adv():
+      if not s.reset: s.t += 1
+
+    s.add_constraints( U( up_cons ) < U( up_adv ), U( up_prod ) < U( up_adv ) )
+
+  def line_trace( s ): return ""
+
+
+def run_recv_adapter_harness( QType, n, eo, do, msgs, MsgType ):
+  th = RecvAdapterHarness( QType, n, eo, do, msgs, MsgType )
+  th.elaborate()
+  th.apply( DefaultPassGroup() )
+  th.sim_reset()
+  for _ in range( len( eo ) + 2 * n + 6 ): th.sim_tick()
+  return th.accepted, th.kept
